@@ -30,6 +30,9 @@ type fakeUpstream struct {
 	endpoint string
 	id       int
 	node     int
+
+	addCall   int // event sequence number at which AddConn was invoked (concurrent family)
+	removeRet int // event sequence number after RemoveConn returned (0 = never removed)
 }
 
 func (u *fakeUpstream) EndpointID() string      { return u.endpoint }
